@@ -39,3 +39,10 @@ mk d25_quote_prefix_one_pass    C20-quote-lookahead-unbounded          fix_c20g.
 mk d26_rows_sized_by_total      C14-values-rows-first-row-budget       fix_c14g.py
 mk d27_tokens_only_same_expand  C07-tokens-only-converter              fix_c07g.py
 ls -la "$out"/*.diff
+mk d28_semicolon_run_then_eof_test C07-context-semicolon-run-no-eof-test fix_c07i.py
+mk d29_derived_tables_put_once     C09-derived-table-put-twice           fix_c09i.py
+mk d30_invalid_number_helper       C13-invalid-number-legacy-error       fix_c13i.py
+mk d31_depth_limit_error_helper    C02-limit-error-zeroes-depth          fix_c02i.py
+mk d32_ctx_cleared_on_every_exit   C11-ctx-clear-missed-on-cancel-exit   fix_c11i.py
+mk d33_filtered_finding_not_built  C16-threshold-return-skips-args       fix_c16i.py
+mk d35_tempfile_error_context      C19-tempfile-fallback-direct-write    fix_c19i.py
